@@ -162,6 +162,20 @@ CLAIMED = {
              "share a representative). Group order in the returned dict is not claimed. A dict passed to from_multiple is "
              "an iterable of its keys and is not generated (R3).",
         design_ref="§5.11, §6 C18"),
+    "C19": dict(
+        technique="TLA+ model of the output file as a row sequence under tracts_to_csv / TractWriter operations, checked "
+                  "by TLC with two injected faults; every bounded history replayed against real files; each call validated "
+                  "by the trace specification (rows re-read = model rows, return values, cells); record forms checked per call",
+        text="TLC explores every history of csv-append/overwrite, writer construction, write(desc | None), close, re-open on a "
+             "new or existing file and checks header-only-first, rows of a call = its tracts in order, re-opening loses nothing; "
+             "each history is executed with random attribute subsets/orders (all 27 documented attributes regularly, unknown "
+             "names), 4 header options and optional UIDs; after every call the file is re-read with csv.reader, rows are "
+             "identified and compared with the model's row sequence, write() counts and the RuntimeError on a closed writer "
+             "are checked, and every cell is compared with the tract attribute; tracts_to_dict / _list / iter forms: one "
+             "record per tract, in order, keys as requested, values equal attributes, unknown name => '<name>: n/a'.",
+        note="Trusted: row identification by (trs, desc) cells and the leaf-in-order cell comparison done in Python "
+             "(separator not asserted). Two probe descriptions.",
+        design_ref="§5.12, §6 C19"),
 }
 
 NOT_APPLICABLE = {
